@@ -1,0 +1,64 @@
+/*
+    Verification hooks.  Compiled in only with -DMEDDLY_VERIF; the shipped
+    build never includes this header and is unchanged.
+
+    Everything here is a tuning knob, a read-only probe counter, or a
+    callback that defaults to "do nothing".
+*/
+#ifndef MEDDLY_VERIF_HOOKS_H
+#define MEDDLY_VERIF_HOOKS_H
+#ifdef MEDDLY_VERIF
+
+#include <cstddef>
+
+namespace MEDDLY {
+    namespace verif {
+
+        /// K1: compute table initial/minimum size (0: shipped value, 1024)
+        inline unsigned long ct_min_size = 0;
+
+        /// F1: if set and returns true, an equal and live compute table
+        /// entry is treated exactly like an equal dead one.
+        inline bool (*drop_hit)() = nullptr;
+
+        /// K2: node handle array starting size (0: shipped value, 512)
+        inline size_t handle_start = 0;
+
+        /// Self-check reports (never abort)
+        inline void (*report)(const char* what, long a, long b) = nullptr;
+
+        /// H5: reach probes
+        enum probe_id {
+            P_CT_GROW = 0, P_CT_SHRINK, P_CT_EVICT, P_CT_DEAD_DISCARD,
+            P_CT_STALE_ON_FIND, P_CT_STALE_SCAN_REMOVED, P_CT_HIT,
+            P_CT_HIT_DROPPED, P_CT_ADD,
+            P_UT_EXPAND, P_UT_SHRINK,
+            P_HANDLE_EXPAND, P_HANDLE_SHRINK, P_HANDLE_RECYCLED,
+            P_HANDLE_REUSED, P_HANDLE_COLLAPSE, P_NODE_REVIVED,
+            P_NODE_ZOMBIE, P_NODE_ORPHAN,
+            P_CNT_8TO16, P_CNT_16TO32, P_CNT_NARROW,
+            P_MM_SPLIT, P_MM_MERGE_LEFT, P_MM_MERGE_RIGHT, P_MM_TAIL_ABSORB,
+            P_MM_ARENA_GROW, P_MM_ARENA_SHRINK,
+            P_NUM_PROBES
+        };
+        inline unsigned long probes[P_NUM_PROBES] = { 0 };
+
+        inline const char* probe_names[P_NUM_PROBES] = {
+            "ct_grow", "ct_shrink", "ct_evict", "ct_dead_discard",
+            "ct_stale_on_find", "ct_stale_scan_removed", "ct_hit",
+            "ct_hit_dropped", "ct_add",
+            "ut_expand", "ut_shrink",
+            "handle_expand", "handle_shrink", "handle_recycled",
+            "handle_reused", "handle_collapse", "node_revived",
+            "node_zombie", "node_orphan",
+            "cnt_8to16", "cnt_16to32", "cnt_narrow",
+            "mm_split", "mm_merge_left", "mm_merge_right", "mm_tail_absorb",
+            "mm_arena_grow", "mm_arena_shrink"
+        };
+    }
+}
+
+#define MEDDLY_VERIF_PROBE(id) (++MEDDLY::verif::probes[MEDDLY::verif::id])
+
+#endif // MEDDLY_VERIF
+#endif // include guard
